@@ -1,4 +1,56 @@
-(* placeholder until ParserTotal.v lands *)
-From FluentV Require Import Syntax.ParserModel.
+(* Props/C01.v — C01 "Parsing is total": for every Unicode string both the full and the runtime
+   parser return; they never panic and never loop forever.
+
+   The statements are about the executable model Syntax/ParserModel.v (a transliteration of
+   fluent-syntax/src/parser/*.rs that is run against the real parser by ./check C01); the proofs
+   are in Syntax/ParserTotal.v (with ParserSpec.v and ParserHelpers.v).  "Every Unicode string" is
+   every byte string satisfying utf8_valid, which is what Rust's `str` guarantees.               *)
+From FluentV Require Import Base.Utf8 Syntax.ParserModel Syntax.ParserTotal.
+
+(* "never panic": no str slice off a char boundary or out of range, no usize underflow, no
+   unreachable!() — and this safety holds at EVERY fuel, i.e. for every prefix of the execution,
+   independently of the termination argument.                                                    *)
+Theorem C01_no_panic : forall bs n, utf8_valid bs = true -> forall t, parse_m bs n 0 <> Pan t.
+Proof. exact parse_m_no_panic. Qed.
+
+Theorem C01_no_panic_runtime : forall bs n, utf8_valid bs = true -> forall t, parse_runtime_m bs n 0 <> Pan t.
+Proof. exact parse_runtime_m_no_panic. Qed.
+
+(* "both the full and the runtime parser return": with the fuel `fuel_for bs` the model neither
+   runs out of fuel (never loops forever) nor panics, and no error escapes the entry loop.       *)
+Theorem C01_parse_total : forall bs, utf8_valid bs = true -> exists r, parse bs = Done r.
+Proof. exact parse_total. Qed.
+
+Theorem C01_parse_runtime_total : forall bs, utf8_valid bs = true -> exists r, parse_runtime bs = Done r.
+Proof. exact parse_runtime_total. Qed.
+
+(* the fuel that suffices (recursion depth + loop iterations along one call path) is linear *)
 Theorem C01_fuel_linear : forall bs, fuel_for bs = 8 * length bs + 16.
-Proof. reflexivity. Qed.
+Proof. exact fuel_linear. Qed.
+
+(* non-vacuity witnesses *)
+
+(* the historical witness  a = {"\u00é"} : the error slice of the bad escape must be extended to
+   the end of the two-byte character; the entry becomes one Junk and one error *)
+Definition witness_unicode_escape : bytes :=
+  bytes_of_string "a = {""\u00" ++ [195; 169]%N ++ bytes_of_string """}".
+
+Example C01_example_witness_valid : utf8_valid witness_unicode_escape = true.
+Proof. vm_compute. reflexivity. Qed.
+
+Example C01_example_witness_full :
+  exists e, parse witness_unicode_escape = Done ([Junk witness_unicode_escape], [e]).
+Proof. vm_compute. eexists. reflexivity. Qed.
+
+Example C01_example_witness_runtime :
+  exists e, parse_runtime witness_unicode_escape = Done ([Junk witness_unicode_escape], [e]).
+Proof. vm_compute. eexists. reflexivity. Qed.
+
+(* a message with a multi-byte character in its text parses to a message, without errors *)
+Example C01_example_message :
+  parse (bytes_of_string "k = " ++ [195; 169]%N ++ bytes_of_string " {$x}" ++ [10]%N) =
+  Done ([Message (bytes_of_string "k")
+           (Some (Pattern [TextElement ([195; 169; 32]%N);
+                           PlaceableElement (Inline (VariableReference (bytes_of_string "x")))]))
+           [] None], []).
+Proof. vm_compute. reflexivity. Qed.
